@@ -215,8 +215,12 @@ def Leaf.adj (cj : K → K) (I : K) : Leaf K → Option (Impl K)
   -- Flattening: (1 / weighting) * inverse, resp. op * weighting (scalar or vector multiple)
   | .flatten S R => some (.lvec (.leaf (.flattenInv R S)) fun j i => 1 / S.W j i)
   | .flattenInv R S => some (.rvec (.leaf (.flatten S R)) fun j i => S.W j i)
-  | .proj P Q idx => some (.leaf (.projAdj Q P idx))
-  | .projAdj Q P idx => some (.leaf (.proj P Q idx))
+  -- ComponentProjection ↔ ComponentProjectionAdjoint, composed with the component-wise
+  -- weight ratios of sub-space and product space (the code omits the factor when all are 1)
+  | .proj P Q idx => some (.comp (.leaf (.projAdj Q P idx))
+      (.leaf (.multiply Q Q fun k i => Q.W k i / P.W (idx k) i)))
+  | .projAdj Q P idx => some (.comp (.leaf (.multiply Q Q fun k i => P.W (idx k) i / Q.W k i))
+      (.leaf (.proj P Q idx)))
 
 /-- `.adjoint` of the expression classes exactly as coded (operator.py, pspace_ops.py). -/
 def Impl.adj (cj : K → K) (I : K) : Impl K → Option (Impl K)
